@@ -57,6 +57,10 @@ let () =
          let lower x = let v = int_of_n x in if v >= 65 && v <= 90 then n_of_int (v + 32) else x in
          let r = out_tail lower (lw = "1") (isunix = "1") (utf8 = "1") (bytes_of_hex hex) in
          print_endline (if r = [] then "-" else hex_of_bytes r)
+     | "perm", [attr; umask; date; time] ->
+         let p = perm_bits (n_of_int (int_of_string attr)) (n_of_int (int_of_string umask)) in
+         let (((((s, mi), h), d), mo), y) = mtime_fields (n_of_int (int_of_string date)) (n_of_int (int_of_string time)) in
+         Printf.printf "%d %d %d %d %d %d %d\n" (int_of_n p) (int_of_n s) (int_of_n mi) (int_of_n h) (int_of_n d) (int_of_n mo) (int_of_n y)
      | "lzss", [mode; hex] -> Printf.printf "0 %s\n" (hex_of_bytes (lzss_spec (n_of_int (int_of_string mode)) (bytes_of_hex hex)))
      | _ -> print_endline "?");
     flush stdout
